@@ -68,7 +68,8 @@ REAL = ['asyncssh transport (connection, encryption, mac, compression, '
         'crypto shims) and channels of both endpoints', 'PyCA']
 STUB = ['event loop + clock', 'TCP', 'executor', 'OS randomness (DRBG)',
         'on-path tamper wire with independent passive decoder']
-PROBES = ['tamper_fired', 'ended_mac_error', 'stalled_then_error',
+PROBES = ['tamper_fired', 'tamper_umac', 'ended_mac_error',
+          'stalled_then_error',
           'after_rekey_tamper', 'tamper_c2s', 'tamper_s2c']
 
 
@@ -217,8 +218,8 @@ class TamperWire(Observer):
             return
 
         # the NEWKEYS packet itself is still under the old keys
-        is_first_newkeys = ds.epoch == 1 and ds.packets and \
-            ds.packets[-1][2] == 21 and ds.packets[-1][0] == 0
+        is_first_newkeys = ds.epoch == 1 and \
+            getattr(ds, 'newkeys_write', None) == index
 
         if ds.epoch == 0 or is_first_newkeys or ds.version is None or \
                 index == 0:
@@ -512,6 +513,16 @@ def run_plan(plan, sched_seed=None, sched_replay=None):
 
         if wires[0].info.get('epoch', 0) > 1:
             sim.probes['after_rekey_tamper'] += 1
+
+        if not wires[0].info.get('decoded'):
+            # algorithms the passive decoder does not implement (umac):
+            # the tamper is placed by write boundaries alone
+            sim.probes['tamper_undecoded_alg'] += 1
+
+        if 'umac' in plan['algs']['mac_algs'][0] and not \
+                ('gcm' in plan['algs']['encryption_algs'][0] or
+                 'chacha' in plan['algs']['encryption_algs'][0]):
+            sim.probes['tamper_umac'] += 1
 
     enc = plan['algs']['encryption_algs'][0]
     mac = plan['algs']['mac_algs'][0]
